@@ -210,6 +210,29 @@ func c06Pass(env *lib.Env, rep *lib.Report, r *queryRunner, deep bool) {
 	cT, cU, cV := c06Contents("t"), c06Contents("u"), c06Contents("v")
 	rep.Bounds["table contents"] = fmt.Sprintf("%d x %d x %d: all multisets of <= 2 rows over keys {1,2} per table (empty sides, duplicate keys); for t and u also two contents whose second row has NULL in every non-key column", len(cT), len(cU), len(cV))
 	rep.Bounds["select lists per FROM"] = "*; all columns qualified by table id; unqualified unique column; unqualified ambiguous column k (must be rejected); column qualified by the table name although an alias exists (must be rejected)"
+	// another database in the same process whose tables t, u, v have other columns (other order, another count):
+	// queried before and after the databases of the main enumeration, as a server does that serves several databases
+	altWorld := func(when string) {
+		body := func(c *lib.Ctx) {
+			qw := newQWorld(c, []*qTable{
+				{name: "t", cols: []mCol{{"s", "varchar"}, {"k", "int"}}, rows: [][]any{{"a1", int64(1)}, {"a2", int64(2)}}},
+				{name: "u", cols: []mCol{{"q", "int"}, {"z", "int"}, {"k", "int"}, {"y", "varchar"}}, rows: [][]any{{int64(5), int64(6), int64(1), "y1"}, {int64(7), int64(8), int64(3), "y3"}}},
+				{name: "v", cols: []mCol{{"r", "varchar"}, {"k", "int"}}, rows: [][]any{{"r2", int64(2)}}}})
+			defer qw.w.destroy()
+			for _, kind := range []string{"JOIN", "LEFT JOIN", "RIGHT JOIN"} {
+				for _, pair := range [][2]string{{"t", "u"}, {"u", "v"}, {"v", "t"}} {
+					js := []qJoin{{table: pair[0]}, {kind: kind, table: pair[1], on: &qCond{atoms: []qAtom{{qc(pair[0], "k"), qc(pair[1], "k"), "="}}}}}
+					r.check(qw, &qQuery{items: []qItem{{kind: "star"}}, from: js, limit: -1, offset: -1}, "join/other-database-"+when, "")
+					r.check(qw, &qQuery{items: []qItem{{kind: "col", col: qRef{pair[1], "k"}}, {kind: "col", col: qRef{pair[0], "k"}}}, from: js, limit: -1, offset: -1}, "join/other-database-"+when, "")
+				}
+			}
+		}
+		if x := lib.RunOnce(body, nil); x.Fail != nil {
+			rep.AddFailure(x.Fail)
+		}
+	}
+	altWorld("first")
+	defer altWorld("last")
 	n := 0
 	for _, rt := range cT {
 		for _, ru := range cU {
